@@ -86,6 +86,45 @@ def run(ctx, ask=None):
                 ctx.fail("size-contract-broken", dict(inp, collection="population", sizes_per_step=sizes), sizes, "== 12 after every step", f"algorithms.{aname}")
             ctx.case(("sizes-few-offspring", aname, vname), len(sizes) >= 3)
     ctx.count("few_offspring_variator_runs", 15)
+    # ---- the grid archives inside PAES and PESA2 (their selection reads `archive.density`): after every step the archive obeys the
+    # same invariants as after any insertion history -- capacity, mutual non-domination, reported occupancy = members per cell
+    from platypus import core as C_
+    for aname, mk in (("PAES", lambda p, cap, div: A.PAES(p, divisions=div, capacity=cap)),
+                      ("PESA2", lambda p, cap, div: A.PESA2(p, population_size=6, divisions=div, capacity=cap))):
+        for nobjs_, cap, div in ((2, 4, 2), (2, 7, 3), (3, 5, 2), (2, 3, 4)):
+            p = Problem(3, nobjs_, function=(lambda x, n_=nobjs_: [sum(((v - 1.0) if j == i else v) ** 2 for j, v in enumerate(x)) for i in range(n_)]))
+            p.types[:] = Real(-1, 2)
+            _random.seed(rng.randrange(2 ** 31))
+            alg = plat.call(lambda: mk(p, cap, div))
+            inp = {"algorithm": aname, "capacity": cap, "divisions": div, "objectives": nobjs_}
+            if isinstance(alg, str):
+                ctx.notes.append(f"grid-archive run aborted: {aname}: {alg}")
+                continue
+            pd_ = C_.ParetoDominance()
+            for step_i in range(25 if aname == "PAES" else 6):
+                r = plat.call_guarded(alg.step, seconds=20)
+                if isinstance(r, str):
+                    ctx.notes.append(f"grid-archive run aborted: {aname}: {r}")
+                    break
+                arch = alg.archive
+                members = list(arch)
+                bad = None
+                if len(members) > cap:
+                    bad = ("archive-exceeds-capacity", len(members), f"<= {cap}")
+                elif any(pd_.compare(a_, b_) != 0 for i_, a_ in enumerate(members) for b_ in members[i_ + 1:]):
+                    bad = ("archive-members-dominate-each-other", [list(m.objectives) for m in members][:6], "mutually non-dominated")
+                else:
+                    counts = {}
+                    for m in members:
+                        counts[arch.find_index(m)] = counts.get(arch.find_index(m), 0) + 1
+                    dens = list(arch.density)
+                    if -1 in counts or any(dens[c_] != counts.get(c_, 0) for c_ in range(len(dens))):
+                        bad = ("density-not-member-count", {str(c_): dens[c_] for c_ in range(len(dens)) if dens[c_] != counts.get(c_, 0)}, {str(k_): v_ for k_, v_ in counts.items()})
+                if bad:
+                    ctx.fail(bad[0], dict(inp, step=step_i, members=[list(m.objectives) for m in members][:8]), bad[1], bad[2], f"algorithms.{aname} / core.AdaptiveGridArchive")
+                    break
+            ctx.case(("grid-archive-in-run", aname, nobjs_, cap, div), True)
+    ctx.count("grid_archive_in_algorithm_runs", 8)
     # ---- the survival functions the generational algorithms call, on merged populations with duplicated objective vectors
     # (clones survive variation unchanged all the time): the next population has exactly min(N, |merged|) members
     from platypus import core as C
